@@ -345,6 +345,7 @@ func runProc(sp procSpec) procResult {
 	var partial string
 	lastTick, lastProgTick := 0, 0
 	var lastCases, lastSteps int64 = -1, -1
+	var cpuNow, cpuAtProg int64
 	lastTickWall := time.Now()
 	scan := func() {
 		f, err := os.Open(prefix + ".progress")
@@ -387,16 +388,20 @@ func runProc(sp procSpec) procResult {
 					pr.lastCall = ln[2:]
 				case 'H':
 					f := strings.Fields(ln)
-					if len(f) == 5 {
+					if len(f) >= 5 {
 						t, _ := strconv.Atoi(f[1])
 						cs, _ := strconv.ParseInt(f[2], 10, 64)
 						st, _ := strconv.ParseInt(f[3], 10, 64)
 						or, _ := strconv.Atoi(f[4])
+						if len(f) >= 6 {
+							cpuNow, _ = strconv.ParseInt(f[5], 10, 64)
+						}
 						lastTick = t
 						lastTickWall = time.Now()
 						if cs != lastCases || st != lastSteps || or > 0 {
 							lastCases, lastSteps = cs, st
 							lastProgTick = t
+							cpuAtProg = cpuNow
 						}
 					}
 				}
@@ -423,7 +428,13 @@ loop:
 			break loop
 		case <-tk.C:
 			scan()
-			if lastTick-lastProgTick >= hangTicks {
+			// A hang: no monitored step completed while the worker was alive
+			// for hangTicks heartbeats AND burned >= 20 s of CPU (it was
+			// running, not starved by other jobs on this machine); or, for a
+			// worker that is blocked rather than spinning (a deadlock burns no
+			// CPU), no step for four times as long.
+			stuck := lastTick - lastProgTick
+			if (stuck >= hangTicks && cpuNow-cpuAtProg >= 20000) || stuck >= 4*hangTicks {
 				pr.hung = true
 				kill()
 				break loop
@@ -614,7 +625,7 @@ func pinBlock(bin string, m *meta, id, tier, fl string, seed uint64, block int, 
 	detail := func(p procResult, reproduced bool) string {
 		var sb strings.Builder
 		if kind == "hang" {
-			fmt.Fprintf(&sb, "no monitored operation completed during %d heartbeat ticks of the worker's own running time", maxInt(m.HangTicks, defaultHangTicks))
+			fmt.Fprintf(&sb, "no monitored operation completed during %d heartbeat ticks while the worker consumed >= 20 s of CPU (or during %d ticks while blocked)", maxInt(m.HangTicks, defaultHangTicks), 4*maxInt(m.HangTicks, defaultHangTicks))
 		} else {
 			fmt.Fprintf(&sb, "worker process died (exit %d)", p.exitCode)
 		}
